@@ -119,6 +119,8 @@ def read_value(rec, tag, contigs):
         return tags[tag]
     if tag == 'mapping_quality':
         return rec.get('mapq', 0)
+    if tag == 'reference_start':      # read attributes are valid feature / bin tags (metaFromRead falls back to getattr)
+        return rec.get('pos')
     return None
 
 
